@@ -8,14 +8,13 @@ namespace C05Value
 open CrashValue
 
 /-- the crash sites of the code as it is (each is reproduced on the real code, see
-    props/C05.val.findings.json). Every other index / slice / make / reflect operation of the
+    props/C05.findings.json). Every other index / slice / make / reflect operation of the
     model is proved unreachable. -/
 def known (s : Site) : Bool :=
   s == ⟨.unmarshalList, .reflectMakeslice⟩   -- negative list length into reflect.MakeSlice
   || s == ⟨.readBytes, .slice⟩                -- tuple / UDT field length beyond the data
   || s == ⟨.unmarshalTuple, .index⟩           -- []interface{} destination shorter than the tuple
   || s == ⟨.unmarshalDate, .index⟩            -- date value of 1..3 bytes
-  || s == ⟨.goType, .reflect⟩                 -- map with an unhashable Go key type (blob, collection, tuple, UDT)
   || s == ⟨.unmarshalTuple, .reflect⟩         -- tuple into a struct/slice/array whose field type differs from goType
   || s == ⟨.unmarshalUDT, .reflect⟩           -- UDT field name equal to an unexported struct field
 
